@@ -169,7 +169,7 @@ def main():
         ],
         "checks": checks,
         "not_applicable": sorted(na, key=lambda x: x["property_id"]),
-        "notes": "Exit codes of every check: 0 held (possibly with KNOWN-FINDING / INCONCLUSIVE lines), 1 replayed VIOLATION, 3 harness error. Repairs of genuine defects are 'fix:' commits in /repo, listed in known_findings.json under 'fixed'.",
+        "notes": "Exit codes of every check: 0 held (possibly with KNOWN-FINDING / INCONCLUSIVE lines), 1 replayed VIOLATION, 3 harness error. Repairs of genuine defects are 'fix:' commits in /repo, listed in known_findings.json under 'fixed'. The thorough tier runs under a wall budget (--budget / $VERIF_BUDGET, default 900 s per check; each cube gets a fair share, a cube cut short is reported as not exhausted); every run also leaves its evidence in evidence_by_tier/<tier>/<id>.json, evidence/<id>.json is the latest run of either tier.",
     }
     with open("MANIFEST.json", "w") as fh:
         json.dump(m, fh, indent=1)
